@@ -26,14 +26,14 @@ def gen_op(rng, force_adjacent=False):
     nrem = 2 if force_adjacent else rng.choice([1, 1, 1, 2, 3])
     how = 'remove' if force_adjacent else rng.choice(HOWS)
     level = rng.choices(['lib', 'geom', 'node_tr', 'node_ch', 'scene', 'bind', 'attr', 'rename', 'save'],
-                        [5, 4, 5, 6, 3, 4, 4, 3, 3])[0]
+                        [5, 4, 5, 6, 3, 5, 6, 3, 4])[0]
     if force_adjacent:
         level = rng.choice(['lib', 'geom', 'node_tr', 'node_ch', 'scene', 'bind'])
     base = {'r': R(), 'pos': P(), 'pos2': P(), 'pos3': P(), 'n': nrem}
     if level == 'save':
         return {'op': rng.choice(['save', 'write'])}
     if level == 'lib':
-        return dict(base, op='lib', lib=rng.choice(LIBNAMES), how=how)
+        return dict(base, op='lib', lib=rng.choice(LIBNAMES), how='clear' if rng.random() < 0.06 and not force_adjacent else how)
     if level == 'rename':
         return dict(base, op='lib', lib=rng.choice(LIBNAMES), how='rename')
     if level == 'geom':
@@ -54,12 +54,14 @@ def gen_op(rng, force_adjacent=False):
         return dict(base, op='scene', si=P(), how='sn_' + how)
     if level == 'bind':
         k = rng.random()
-        if k < 0.5 or force_adjacent:
+        if k < 0.4 or force_adjacent:
             return dict(base, op='bind', gi=P(), how='bm_' + how)
-        if k < 0.8:
+        if k < 0.65:
             return dict(base, op='bind', gi=P(), how='bvi_' + how)
         return dict(base, op='bind', gi=P(), how=rng.choice(['symbol', 'target', 'retarget']))
-    return dict(base, op='attr', what=rng.choice(['light', 'camera', 'material', 'effect', 'image', 'asset']))
+    if rng.random() < 0.2:
+        return dict(base, op='geom', gi=P(), how='attr')
+    return dict(base, op='attr', what=rng.choice(['light', 'camera', 'material', 'effect', 'effect', 'image', 'asset']))
 
 
 def gen_case(rng, maxlen, files_fraction=0.2):
@@ -86,8 +88,9 @@ def c_skel(t, I, ctor):
 
 def c_case(res):
     I = Interner()
-    sites = clist([ctuple(clist([cN(x) for x in s[1]]), clist([cN(x) for x in s[2]]), clist([cN(x) for x in s[3]]))
-                   for s in res['sites']])
+    L = lambda xs: clist([cN(x) for x in xs])
+    sites = clist(['(SProfile %s %s %s %s %s)' % (L(s[1]), L(s[2]), L(s[3]), L(s[4]), cN(s[5])) if s[0] == 'profile'
+                   else '(SAll %s %s %s)' % (L(s[1]), L(s[2]), L(s[3])) for s in res['sites']])
     return ctuple(sites, c_skel(res['skel_model'], I, 'Obj'), c_skel(res['skel_file'], I, 'Sk'))
 
 
